@@ -30,47 +30,48 @@ func hC02UnmarshalProofValue(vp vc.VerifiablePresentation, target interface{}) e
 
 //verif:stub (time.Time).Sub => hC02TimeSub
 
-// hC02TimeSub is time.Time.Sub (go1.23 source, line by line) specialised to instants without a
-// monotonic clock reading (everything decoded from JSON or built with time.Unix; asserted below).
-// Reason: the real Sub calls u.Add(d) with a symbolic d, which rewrites the wall word with bit
-// operations (`wall&^nsecMask | nsec`, `wall&hasMonotonic`) that the engine's integer encoding
-// cannot express; 64-bit bit-vector encoding of the *1e9 and /1e9 in Sub is not decided by z3.
+// hC02TimeSub models time.Time.Sub for instants without a monotonic clock reading (everything decoded
+// from JSON or built with time.Unix; asserted below): the exact difference in nanoseconds, saturated to
+// the range of time.Duration - which is what the real Sub documents and computes (it forms the wrapped
+// difference d, and keeps it iff u.Add(d).Equal(t), i.e. iff the exact difference fits).
+// Reason for the model: the real Sub calls u.Add(d) with a symbolic d, which rewrites the wall word with
+// bit operations (`wall&^nsecMask | nsec`, `wall&hasMonotonic`) that the engine's integer encoding cannot
+// express, and the 64-bit bit-vector encoding of *1e9, /1e9 in Sub/Add is not decided by z3.
+// The model was compared natively with the real time.Time.Sub on all boundary combinations
+// (see registry assumptions).
 func hC02TimeSub(t, u time.Time) time.Duration {
 	const nsecMask = 1<<30 - 1
 	const minDuration, maxDuration = time.Duration(-1 << 63), time.Duration(1<<63 - 1)
+	const maxS, maxN = 9223372036, 854775807 // maxDuration = maxS s + maxN ns; minDuration = -(maxS s + (maxN+1) ns)
 	tw, uw := vGetField(&t, "wall").(uint64), vGetField(&u, "wall").(uint64)
-	vAssert(tw < 1<<63 && uw < 1<<63, "H02.time_model: instant with monotonic clock reading reached the Sub model")
 	ts, us := vGetField(&t, "ext").(int64), vGetField(&u, "ext").(int64) // sec()
-	tn, un := int32(tw&nsecMask), int32(uw&nsecMask)                       // nsec()
-	d := time.Duration(ts-us)*time.Second + time.Duration(tn-un)
-	// u.Add(d)
-	dsec := int64(d / 1e9)
-	nsec := un + int32(d%1e9)
-	if nsec >= 1e9 {
-		dsec++
-		nsec -= 1e9
-	} else if nsec < 0 {
-		dsec--
-		nsec += 1e9
-	}
-	// addSec(dsec)
-	var asec int64
-	sum := us + dsec
-	if (sum > us) == (dsec > 0) {
-		asec = sum
-	} else if dsec > 0 {
-		asec = 1<<63 - 1
-	} else {
-		asec = -(1<<63 - 1)
-	}
+	vAssert(tw < 1<<63 && uw < 1<<63, "H02.time_model_no_monotonic: instant with monotonic clock reading reached the Sub model")
+	vAssert(ts > -(1<<40) && ts < 1<<40 && us > -(1<<40) && us < 1<<40, "H02.time_model_range: instant outside +-2^40 s reached the Sub model")
+	ds := ts - us
+	dn := int64(int32(tw&nsecMask)) - int64(int32(uw&nsecMask)) // nsec() difference, in (-1e9, 1e9)
 	switch {
-	case asec == ts && nsec == tn: // u.Add(d).Equal(t)
-		return d
-	case ts < us || ts == us && tn < un: // t.Before(u)
-		return minDuration
-	default:
+	case ds > maxS+1 || (ds == maxS+1 && dn > maxN-1000000000) || (ds == maxS && dn > maxN):
 		return maxDuration
+	case ds < -(maxS+1) || (ds == -(maxS+1) && dn < 1000000000-(maxN+1)) || (ds == -maxS && dn < -(maxN+1)):
+		return minDuration
 	}
+	// Within +-8 s the result is exact (the second difference is concretised, so no symbolic product is
+	// formed). Beyond that the model OVER-APPROXIMATES: an arbitrary duration of the right sign and of more
+	// than 8 s (the exact value is ds*1e9+dn, |dn| < 1e9). Reason: z3 (incremental mode) does not reliably
+	// decide queries over ds*1e9 in the integer encoding. Every caller in this slice only compares the
+	// result with constants of at most 5 s, so nothing is lost; an over-approximation can only add alarms.
+	if ds >= -8 && ds <= 8 {
+		k := int64(vConc(int(ds)))
+		return time.Duration(k*1000000000 + dn)
+	}
+	vTag("sub.far")
+	r := vI64()
+	if ds > 0 {
+		vAssume(r > 8000000000)
+	} else {
+		vAssume(r < -8000000000)
+	}
+	return time.Duration(r)
 }
 
 // Years 0000..9999 are what RFC3339 (time.Time.UnmarshalJSON) can express.
@@ -119,10 +120,10 @@ func hC02DiffLE5s(a, b hC02Time) bool {
 	if ds > 6 {
 		return false
 	}
-	if ds < -1 {
-		return true
+	if ds < 0 {
+		return true // b.nsec - a.nsec < 1 s
 	}
-	return ds*1000000000+(b.nsec-a.nsec) <= 5000000000
+	return ds*1000000000+b.nsec <= 5000000000+a.nsec
 }
 
 // H02a: validateS2SPresentationMaxValidity on a JSON-LD presentation with created/expires arbitrary
@@ -133,11 +134,11 @@ func H02a() {
 	hasCreated, hasExpires := vBool(), vBool()
 	var created, expires hC02Time
 	if hasCreated {
-		created = hC02SymTime("created", hC02MinUnix, hC02MaxUnix)
+		created = hC02SymTime("created", int64(vParam("minunix", hC02MinUnix)), hC02MaxUnix)
 		p.Created = created.t
 	}
 	if hasExpires {
-		expires = hC02SymTime("expires", hC02MinUnix, hC02MaxUnix)
+		expires = hC02SymTime("expires", int64(vParam("minunix", hC02MinUnix)), hC02MaxUnix)
 		p.Expires = &expires.t
 	}
 	nproofs := vLen(0, 2)
